@@ -106,6 +106,10 @@ theorem v4_values_agree (ip len : Nat) (hip : ip < 2 ^ 32) (hlen : len ≤ 32) :
     rw [dotted_eq]; rfl
   · rw [V4.asCidrNet_mk4 ip len hip' hlen, dotted_eq, hnet]; rfl
 
+-- non-vacuity: 10.1.2.3/24 keeps its host bits, network 10.1.2.0, broadcast 10.1.2.255
+example : (167838211 : Nat) < 2 ^ 32 ∧ (mk4 167838211 24).ip = 167838211 ∧ (mk4 167838211 24).net = 167838208 ∧
+    V4.broadcast (mk4 167838211 24) = 167838463 := by decide
+
 /-- **IPv6 values** -/
 theorem v6_values_agree (ip len : Nat) (hip : ip < 2 ^ 128) (hlen : len ≤ 128) :
     let o := mk6 ip len
@@ -147,6 +151,10 @@ theorem v6_values_agree (ip len : Nat) (hip : ip < 2 ^ 128) (hlen : len ≤ 128)
   · rw [V6.asCidrNet_mk6 ip len hip hlen, hnet]; rfl
   · show strV6 o.net ++ '/' :: toDec len = _
     rw [hnet]; rfl
+
+-- non-vacuity: a /127 inside the upper half of the address space
+example : (2 ^ 127 + 5 : Nat) < 2 ^ 128 ∧ (mk6 (2 ^ 127 + 5) 127).net = 2 ^ 127 + 4 ∧
+    V6.lastAddress (mk6 (2 ^ 127 + 5) 127) = 2 ^ 127 + 5 := by decide
 
 /-- **Host bits are kept**: the object reports the address it was given, not the network address –
 the stored address minus the network address is exactly the host part `ip mod 2^(w−len)` -/
@@ -312,5 +320,56 @@ example : V4.fromStr "256.1.1.1".toList = .error .addressValueError := by rfl
 example : V4.fromStr "1.2.3.4/33".toList = .error .netmaskValueError := by rfl
 example : V4.fromStr "01.2.3.4".toList = .error .addressValueError := by rfl
 example : V4.fromStr "1.2.3.4/24x".toList = .error .addressValueError := by rfl
+
+/-! ## IPv6 text level -/
+
+/-- **IPv6 text forms, exploded spelling** (`xxxx:xxxx:…:xxxx/len`, `xxxx:…:xxxx<blanks>len`, surrounding
+blanks, ASCII digits with leading zeros for `len`): the constructor builds the object of `(ip, len)`.
+The guard `len(input) ≤ 43` is the one the code applies to the raw input (finding F32). -/
+theorem v6_text_forms_exploded (ip len : Nat) (hip : ip < 2 ^ 128) (hlen : len ≤ 128)
+    (digits : Str) (hne : digits ≠ []) (hd : ∀ c ∈ digits, isDigit c = true) (hv : ofDigits digits = some len)
+    (input : Str) (hguard : input.length ≤ 43)
+    (hs : strip input = IP.exploded ip ++ '/' :: digits ∨
+      ∃ ws, ws ≠ [] ∧ (∀ c ∈ ws, isSpace c = true) ∧ strip input = IP.exploded ip ++ ws ++ digits) :
+    V6.fromStr input = .ok (mk6 ip len) := by
+  rw [← exploded_eq] at hs
+  exact V6.fromStr_exploded input ip len digits hip hlen hne hd hv hguard hs
+
+/-- **IPv6 text forms, compressed (RFC 5952) spelling — partial.**  Proved: the stdlib layer of the
+constructor reads the text the class itself prints (`str(ip)`, `as_cidr_addr`, `compressed`) back to
+`(ip, len)` – this is what the copy constructor and every `network`-derived value rely on.
+Full statement (NOT proved): `∀ input, input.length ≤ 43 → strip input = strV6 ip ++ '/' :: toDec len →
+V6.fromStr input = .ok (mk6 ip len)`; missing is the lemma that the hand-written regex automaton
+(`matchHexForm`, the `:::` look-ahead) accepts `strV6 ip` – agreement on these texts is measured by the
+correspondence run on every check (compressed, upper-case, alternative `::` placements, embedded dotted quad). -/
+theorem v6_text_forms_compressed_partial (ip len : Nat) (hip : ip < 2 ^ 128) (hlen : len ≤ 128) :
+    stdV6Addr (strV6 ip) = .ok ip ∧
+    stdV6Net false (strV6 ip ++ '/' :: toDec len) = .ok ((mk6 ip len).net, len) :=
+  ⟨stdV6Addr_strV6 ip hip, stdV6Net_cidr false ip len hip hlen (fun h => by cases h)⟩
+
+/-- **IPv6 rejects — partial** (this is the statement F16 violated before the regex was anchored): whenever
+the text constructor returns an object, the raw input had at most 43 characters and, after `strip()`
+and the blank-to-slash rewrite, the *whole* text is `addr` (then `len = 128`) or `addr<sep>digits`
+where `addr` is exactly the text the stdlib parsed into the stored address and `digits` are ASCII
+digits whose value is the stored prefix length ≤ 128; the object is the object of `(ip, len)`.
+Full statement (NOT proved): additionally `addr` is one of the RFC 4291 spellings of `o.ip`
+(a property of the stdlib parser model `stdV6Int` alone, measured against the real `ipaddress`). -/
+theorem v6_rejects_partial (input : Str) (o : Obj) (h : V6.fromStr input = .ok o) :
+    input.length ≤ 43 ∧ o = mk6 o.ip o.len ∧ o.len ≤ 128 ∧
+    ∃ joined addr,
+      (splitWs (strip input) = [joined] ∨ ∃ a b, splitWs (strip input) = [a, b] ∧ joined = a ++ '/' :: b) ∧
+      stdV6Addr addr = .ok o.ip ∧
+      ((strip joined = addr ∧ o.len = 128) ∨
+       ∃ sep m, strip joined = addr ++ sep :: m ∧ (sep = '/' ∨ isSpace sep = true) ∧ m ≠ [] ∧
+         (∀ c ∈ m, isDigit c = true) ∧ ofDigits m = some o.len) :=
+  V6.fromStr_inv input o h
+
+-- non-vacuity: the F16 witnesses and their neighbours are refused by the model
+example : V6.fromStr "::1/64junk".toList = .error .addressValueError := by rfl
+example : V6.fromStr "1::2::3".toList = .error .addressValueError := by rfl
+example : V6.fromStr "1:2:3:4:5:6:7:8:9".toList = .error .addressValueError := by rfl
+example : V6.fromStr "1::g".toList = .error .addressValueError := by rfl
+example : V6.fromStr "::1/129".toList = .error .netmaskValueError := by rfl
+example : V6.fromStr "::1 64 5".toList = .error .notImplementedError := by rfl
 
 end Ccp.C11
